@@ -560,23 +560,44 @@ func c13R3(c *Ctx) {
 	// map literals: find MapUpdates with constant keys
 	type lit struct {
 		keys map[string]ssa.Value
-		blk  *ssa.BasicBlock
+		blk  *ssa.BasicBlock // where, in the function of the branch, the literal is built (or the builder is called)
+		fn   *ssa.Function   // the function that contains the literal
 	}
 	lits := map[ssa.Value]*lit{}
 	host := branch.Parent()
+	collect := func(f *ssa.Function, at *ssa.BasicBlock) {
+		eachInstr(f, func(r instrRef) {
+			mu, ok := r.I.(*ssa.MapUpdate)
+			if !ok {
+				return
+			}
+			k, isC := constString(mu.Key)
+			if !isC {
+				return
+			}
+			if lits[mu.Map] == nil {
+				b := at
+				if b == nil {
+					b = r.Block
+				}
+				lits[mu.Map] = &lit{keys: map[string]ssa.Value{}, blk: b, fn: f}
+			}
+			lits[mu.Map].keys[k] = mu.Value
+		})
+	}
+	collect(host, nil)
+	// output builders (`successfulLoopOutput(itemOutputs)`, `failedLoopOutput(n, itemOutputs, itemErrors)`): pure functions
+	// with one call site, analysed where they are; their parameters are bound to the call's arguments
 	eachInstr(host, func(r instrRef) {
-		mu, ok := r.I.(*ssa.MapUpdate)
+		call, ok := r.I.(*ssa.Call)
 		if !ok {
 			return
 		}
-		k, isC := constString(mu.Key)
-		if !isC {
+		h := call.Common().StaticCallee()
+		if h == nil || !isRepoFn(h) || len(h.Blocks) == 0 || h == host || len(c.CG().callers[h]) != 1 {
 			return
 		}
-		if lits[mu.Map] == nil {
-			lits[mu.Map] = &lit{keys: map[string]ssa.Value{}, blk: r.Block}
-		}
-		lits[mu.Map].keys[k] = mu.Value
+		collect(h, r.Block)
 	})
 	var okErr, okSucc bool
 	for _, l := range lits {
@@ -598,7 +619,7 @@ func c13R3(c *Ctx) {
 						if mu, ok := ref.(*ssa.MapUpdate); ok && mu.Map == dm {
 							// key is the loop index of a loop over outputs; value the element
 							if derivesFrom(mu.Value, isRes(0)) {
-								li := loopOver(host, func(v ssa.Value) bool { return derivesFrom(v, isRes(0)) })
+								li := loopOver(l.fn, func(v ssa.Value) bool { return derivesFrom(v, isRes(0)) })
 								if li != nil && li.Blocks[mu.Block()] {
 									// index loop: key is the phi of the header
 									if isLoopIndex(mu.Key, li) {
@@ -611,6 +632,10 @@ func c13R3(c *Ctx) {
 									if guardedBy(mu, true, func(cond ssa.Value) bool {
 										b, ok := cond.(*ssa.BinOp)
 										return ok && b.Op == token.NEQ && isNilConst(b.Y) && derivesFrom(b.X, isRes(0))
+									}) != nil || guardedBy(mu, false, func(cond ssa.Value) bool {
+										// the guard-clause form: `if entry == nil { continue }`
+										b, ok := cond.(*ssa.BinOp)
+										return ok && b.Op == token.EQL && isNilConst(b.Y) && derivesFrom(b.X, isRes(0))
 									}) != nil {
 										nilSkipped = true
 									}
